@@ -423,7 +423,8 @@ class HomogDomain(Domain):
     def store_sub(self, interp, container, index_node, index_val, value, node):
         if isinstance(container, HP) and isinstance(value, HP):
             if not container.t:
-                out = HP(dict(value.t), True)
+                # a zero buffer filled (possibly under a mask) with the value: image-valued iff the value is
+                out = HP(dict(value.t), value.image)
                 return out
             return self.join(interp, container, value)
         if isinstance(value, HP) and container is TOP:
